@@ -369,6 +369,17 @@ def _falls (stmts):
   if isinstance(s, ast.If): return _falls(s.body) or _falls(s.orelse)
   return True
 
+# primitives that mark the function around them as a unit the rules are written against (e.g. the physical emission of a
+# frame: the guards that precede it form "the checked send", whether that is a closure, a method or a function): a new
+# helper that calls one directly is kept as a unit and never dissolved into its callers
+ANCHOR_CALLS = {'_output_packet_physical'}
+def _calls_anchor (fn):
+  for n in ast.walk(fn):
+    if isinstance(n, ast.Call):
+      f = n.func
+      if (isinstance(f, ast.Attribute) and f.attr in ANCHOR_CALLS) or (isinstance(f, ast.Name) and f.id in ANCHOR_CALLS): return True
+  return False
+
 class Inliner(object):
   def __init__ (self, tree, modinv, external_def=None, external_name=None):
     self.tree = tree; self.inv = modinv; self.counter = 0; self.inlined = []; self.skip = set()
@@ -389,7 +400,7 @@ class Inliner(object):
       for s in body:
         if isinstance(s, FUNC):
           q = (cls + '.' if cls else '') + s.name
-          if q not in self.inv and _inlinable(s):
+          if q not in self.inv and _inlinable(s) and not _calls_anchor(s):
             if cls: self.helpers[('method', cls, s.name)] = s; self.methods_by_name.setdefault(s.name, []).append((cls, s))
             else: self.helpers[('func', s.name)] = s
         elif isinstance(s, ast.ClassDef): visit(s.body, (cls + '.' if cls else '') + s.name)
